@@ -273,6 +273,26 @@ def musig_defined(ds, ks, msg, merkle_root):
     return True
 
 
+def musig_defined_cancelling(ds, ks, msg, merkle_root):
+    """a session in which exactly ONE of the two nonce sums is the point at infinity (the participants' nonce secrets of
+    that slot cancel mod n -- constructible at will, every single nonce is in [1, n-1]): the scheme is still defined, the
+    final nonce R = R1 + b*R2 is the finite one of b*R2 / R1 (b = 0 is a hash event, A-NEGL); otherwise as musig_defined"""
+    xs = xs_of_secrets(ds)
+    for i in range(len(xs) - 1):
+        if xs[i] == xs[i + 1]:
+            return False
+    agg = musig_agg_point(xs)
+    if curve.is_inf(agg):
+        return False
+    r1 = curve.mul_G(sum([k[0] for k in ks]))
+    r2 = curve.mul_G(sum([k[1] for k in ks]))
+    if curve.is_inf(r1) == curve.is_inf(r2):
+        return False
+    if len(merkle_root) != 0:
+        return tweak_defined(agg, merkle_root)
+    return True
+
+
 def musig_agg_sorted_secrets(ds):
     """aggregate point for secrets LISTED IN INCREASING ORDER of their x-only keys (lift_x(x(dG)) is even(dG))"""
     xs = [x32(curve.mul_G(d)) for d in ds]
